@@ -702,7 +702,11 @@ class RowWiseModifiedBisectionSearch:
                 nbh_start = nbh_max
                 # continueLoop = True
                 # highT_e = T_lower
+                # the full smallest field is known to work; keep it unless a reduced field works too
+                selected_coordinates = starting_field
                 selected_specifier = lower_field_specifier
+                selected_temp_excess = t_lower
+                selected_spacing = spacing_stop
                 i = 0
                 while i < self.max_iter:
                     nbh = (nbh_max + nbh_min) // 2
